@@ -9,8 +9,9 @@ pub fn fstr(x: f32) -> String {
         // Handle very small negative values to avoid '-0'
         return "0".to_string();
     }
-    if x == (x as i32) as f32 {
-        return (x as i32).to_string();
+    // (whole numbers, also beyond the range of i32)
+    if x == x.trunc() && x.abs() < 1e18 {
+        return (x as i64).to_string();
     }
     let result = format!("{x:.3}");
     // Remove trailing 0s and then trailing '.' if it exists.
